@@ -22,7 +22,10 @@ Definition order_dependent (s : st) (e : ev) : bool :=
   match e with
   | SubscribeLocked _ =>
       (1 <? length (pend_subs s))%nat
-      || match cl s with CWaitLoop | CWantLock => true | _ => false end
+      || (negb (closed s)
+          && (match cl s with CWaitLoop | CWantLock => true | _ => false end
+              || existsb (fun e => match snd e with K2WaitLoop | K2WantLock => true | _ => false end)
+                         (cl2 s)))
       || is_pcall (proc s)
       || (negb (loop_dead s) && existsb (fun e' => (p_due (snd e') <=? now s)%Z) (pending s))
   (* a departing forwarder and the queue's next callback both want the lock: if the callback wins
@@ -46,7 +49,7 @@ Definition order_dependent (s : st) (e : ev) : bool :=
 Definition is_move (e : ev) : bool :=
   match e with FwdTake _ | FwdDeliver _ => true | _ => false end.
 Definition is_closelock (e : ev) : bool :=
-  match e with CloseLock => true | _ => false end.
+  match e with CloseLock | Close2Lock _ => true | _ => false end.
 
 Fixpoint quiesce_amb (fuel : nat) (vr : variant) (iv : Z) (s : st) (amb moved : bool) : st * bool :=
   match fuel with
@@ -106,6 +109,10 @@ Definition sub_events (n : Z) (before after : list sub) : list (Z * oev) :=
 
 Definition is_returned (c : closepc) : bool := match c with CReturned => true | _ => false end.
 
+(* the further Close calls that have returned: their call ids *)
+Definition returned2 (s : st) : list Z :=
+  map fst (filter (fun e => match snd e with K2Returned => true | _ => false end) (cl2 s)).
+
 Definition done_events (n : Z) (o : op) (close_id : option Z) (s0 s_env s1 : st) : list (Z * oev) :=
   let subs_done := filter (fun id => negb (existsb (fun e => (fst e =? id)%Z) (pend_subs s1)))
                           (map fst (pend_subs s_env)) in
@@ -113,14 +120,15 @@ Definition done_events (n : Z) (o : op) (close_id : option Z) (s0 s_env s1 : st)
   let close_done := match close_id with
                     | Some c => if is_returned (cl s1) && negb (is_returned (cl s0)) then [c] else []
                     | None => [] end in
-  map (fun c => (n, EDone c)) (sortZ (subs_done ++ batch_done ++ close_done)).
+  let close2_done := filter (fun id => negb (memZ id (returned2 s0))) (returned2 s1) in
+  map (fun c => (n, EDone c)) (sortZ (subs_done ++ batch_done ++ close_done ++ close2_done)).
 
 Record drv := mkDrv {
   d_st : st;
-  d_close : option Z;       (* step of the Close call *)
+  d_close : option Z;       (* step of the first Close call *)
   d_amb : bool;             (* an order-dependent choice was met *)
   d_bad : bool;             (* the script left the model's domain (e.g. touches a subscriber whose
-                               Subscribe has not returned, or closes twice) *)
+                               Subscribe has not returned) *)
   d_obs : list (Z * oev)
 }.
 
@@ -131,6 +139,11 @@ Definition env_step (vr : variant) (iv : Z) (s : st) (n : Z) (o : op) : option s
                      | Some s1 => step vr iv s1 (Batch k n)
                      | None => None
                      end
+  (* the first Close call, or a further one (any number, overlapping or not) *)
+  | OClose => match cl s with
+              | CNone => step vr iv s CloseCall
+              | _ => step vr iv s (Close2Call n)
+              end
   | _ => step vr iv s (env_event n o)
   end.
 
@@ -150,7 +163,7 @@ Definition drive_step (vr : variant) (iv : Z) (d : drv) (n : Z) (o : op) : drv :
   match (if op_ok o then env_step vr iv s0 n o else None) with
   | None => mkDrv s0 (d_close d) (d_amb d) true (d_obs d)
   | Some s_env =>
-      let close_id := match o with OClose => Some n | _ => d_close d end in
+      let close_id := match o, d_close d with OClose, None => Some n | _, x => x end in
       let '(s1, amb) := quiesce_amb (measure s_env) vr iv s_env (d_amb d || races_timer s0 o) false in
       mkDrv s1 close_id amb (d_bad d)
             (d_obs d ++ sub_events n (subs s0) (subs s1) ++ done_events n o close_id s0 s_env s1)
